@@ -52,11 +52,16 @@ def prepare(tier):
     _CORPUS = corpus.load()
 
 
-def _restart(at, P, parset, progset, instructions, res, year, medium, scratch, stats, prepare_only=False):
+def _restart(at, P, parset, progset, instructions, res, year, medium, scratch, stats, prepare_only=False, stale=None):
     """Save state of ``res`` at ``year`` through ``medium`` and run again from there. Returns the new Result."""
     import sciris as sc
 
     ps = parset.copy()
+    if stale is not None:
+        # the parameter set already carries the state of ANOTHER run at the same year (same step, same initial-size
+        # factors); saving the state of ``res`` must replace it
+        ps.set_initialization(stale, year)
+        stats["probe:state_saved_over_another_runs_state"] = stats.get("probe:state_saved_over_another_runs_state", 0) + 1
     ps.set_initialization(res, year)
     P2 = P
     if medium == "dcp":
@@ -320,6 +325,22 @@ def run(ch, idx, tier):
                 return False, chain_exact
             return True, chain_exact
 
+        stale_holder = {}
+
+        def stale_result():
+            # a run of the same model whose transition parameters (not the quantities that set initial sizes) are halved
+            if "r" not in stale_holder:
+                stale_holder["r"] = None
+                try:
+                    q = parset.copy()
+                    for nm_ in P.framework.pars.index:
+                        if nm_ in q.pars and P.framework.transitions.get(nm_):
+                            q.pars[nm_].meta_y_factor = 0.5 * q.pars[nm_].meta_y_factor
+                    stale_holder["r"] = P.run_sim(q, progset, instructions)
+                except Exception:
+                    pass
+            return stale_holder["r"]
+
         for i in crash_indices:
             medium = MEDIA[ch.choose("medium", len(MEDIA))]
             chain = 1 + (ch.choose("chain", 3) if ch.flip("do_chain", 0.25) else 0)
@@ -333,7 +354,8 @@ def run(ch, idx, tier):
                 # the year handed to set_initialization is the restarted run's own grid value
                 year_local = cur_res.t[crash_at - cur_off]
                 try:
-                    new = _restart(at, P, parset, progset, instructions, cur_res, year_local, medium, scratch, stats)
+                    stale_ = stale_result() if (link == 0 and (idx + crash_at) % 3 == 0) else None
+                    new = _restart(at, P, parset, progset, instructions, cur_res, year_local, medium, scratch, stats, stale=stale_)
                 except Exception as e:
                     import traceback
 
